@@ -55,17 +55,26 @@ structure Obs where
   single : Bool
   rootDeg2 : Bool
   tipSup : List Rat
+  /-- the rooted view (clades, depths relative to the first tip), filled in for rooted inputs only -/
+  cl : List (List String)
+  rd : List Rat
   deriving BEq
 
-def obs (t : T) : Obs :=
-  ⟨sortS t.tipNames, t.usplits, t.tipLens, t.distMatrix.2, t.noSingle, t.kids.length == 2,
-    (t.tipEdges.map (·.sup)).mergeSort (fun a b => decide (a ≤ b))⟩
+def obs (rootedInput : Bool) (t : T) : Obs :=
+  let tips := sortS t.tipNames
+  ⟨tips, t.usplits, t.tipLens, t.distMatrix.2, t.noSingle, t.kids.length == 2,
+    (t.tipEdges.map (·.sup)).mergeSort (fun a b => decide (a ≤ b)),
+    if rootedInput then canonSet (clades t) else [],
+    if rootedInput then (match tips with
+      | [] => []
+      | a0 :: _ => tips.map fun a => t.rootDist a - t.rootDist a0) else []⟩
 
 def diffObs (a b : Obs) : String :=
   (if a.tips != b.tips then "tips " else "") ++ (if a.us != b.us then "splits/data " else "") ++
   (if a.tl != b.tl then "tip-lengths " else "") ++ (if a.dm != b.dm then "distances " else "") ++
   (if a.single != b.single then "single-nodes " else "") ++ (if a.rootDeg2 != b.rootDeg2 then "root-degree-2 " else "") ++
-  (if a.tipSup != b.tipSup then "tip-branch-supports " else "")
+  (if a.tipSup != b.tipSup then "tip-branch-supports " else "") ++
+  (if a.cl != b.cl then "clades(rooted) " else "") ++ (if a.rd != b.rd then "depths(rooted) " else "")
 
 /-- evaluation of one `RemoveTips` result: shared by the library and the CLI cases.
     `ixo` = the index answers (absent for the CLI). -/
@@ -85,7 +94,7 @@ def judge (extraTags : List String) (rev : Bool) (names : List String) (before :
   let rootKidRemoved := before.kids.any fun et => et.2.isLeaf && rm.contains et.2.name
   let tags0 := extraTags ++ tagIf uniq "uniq" ++ tagIf nos "nosingle" ++ tagIf (!nos) "singles" ++ tagIf rootTip "roottip" ++ tagIf rootTipRemoved "roottip-removed" ++ tagIf (rootTip && !rootTipRemoved) "roottip-kept" ++
     tagIf lok "lens-ok" ++ tagIf (goodNames before) "good-names" ++ tagIf big "kept>=3" ++ tagIf (!big) "small" ++ tagIf hyp "hyp" ++
-    tagIf before.rooted "rooted" ++ tagIf (!before.rooted) "unrooted" ++ tagIf (maxDeg before ≥ 4 || (before.rooted && maxDeg before ≥ 3)) "multif" ++
+    tagIf before.rooted "rooted" ++ tagIf (rootedBin before) "rooted-bin" ++ tagIf (!before.rooted) "unrooted" ++ tagIf (maxDeg before ≥ 4 || (before.rooted && maxDeg before ≥ 3)) "multif" ++
     tagIf rev "revert" ++ tagIf (names.any fun n => !before.tipNames.contains n) "absent-names" ++
     tagIf rm.isEmpty "nothing-removed" ++ tagIf (chainGone rm before) "chain" ++ tagIf rootKidRemoved "root-child" ++ tagIf (rootKidRemoved && before.rooted) "rooted-loses-root-child" ++ tagIf (cladeGone rm before) "clade-or-cherry" ++
     tagIf (before.edges.any (·.len == NIL)) "len-absent" ++ tagIf (before.edges.any (·.len == 0)) "len-zero" ++
@@ -98,7 +107,7 @@ def judge (extraTags : List String) (rev : Bool) (names : List String) (before :
     | some after =>
       let suppressed := before.size - after.size > rm.length
       let inj := sidesInj (after.usplitsAll.map (·.side))
-      let tags := tags0 ++ tagIf (suppressed && !rm.isEmpty) "nontrivial" ++ tagIf suppressed "suppression" ++
+      let tags := tags0 ++ tagIf (hyp && suppressed && !rm.isEmpty) "nontrivial" ++ tagIf suppressed "suppression" ++
         tagIf inj "sides-inj" ++ tagIf (!inj) "sides-look-alike" ++
         tagIf (after.name != before.name || after.kids.length != before.kids.length) "root-changed" ++
         tagIf (!nos && !rootTip && after.kids.length == 1) "single-root-left"
@@ -112,11 +121,17 @@ def judge (extraTags : List String) (rev : Bool) (names : List String) (before :
         else if !nos && sortS (leavesL after.kids) != sortS (k.filter (leavesL before.kids).contains) then
           some "the leaves below the root are not the requested tips (input with single-child nodes)"
         else if !hyp then none
-        else if !(splitsOK before names rev after) then some "splits are not the non-trivial restrictions"
+        -- literal comparison of the sorted lists when the rendering tells the sides apart (proved:
+        -- removeTips_oracle_literal), as sets / up to order otherwise (removeTips_oracle_roottip, _data_roottip)
+        else if inj && !(splitsOK before names rev after) then some "splits are not the non-trivial restrictions"
+        else if !inj && !(splitsOKm before names rev after) then some "splits are not the non-trivial restrictions (as sets)"
         else if lok && !(distOK before names rev after) then some "a path length between remaining tips changed"
         else if !(noSingleAfterR before names rev after) then some "a single-child / degree-2 node or a wrong root is left behind"
-        else if lok && !(dataOK before names rev after) then some "merged branch data (length sum / support max) wrong"
+        else if lok && inj && !(dataOK before names rev after) then some "merged branch data (length sum / support max) wrong"
+        else if lok && !inj && !(dataOKm before names rev after) then some "merged branch data (length sum / support max) wrong (up to order)"
         else if !(tipSupOK before after) then some "a tip branch received a support"
+        else if !(rootedOK before names rev after) then
+          some "rooted input: the result is not the rooted induced subtree (clades / root position / depths)"
         else none
       let failIx : Option String :=
         match ixo with
@@ -134,15 +149,15 @@ def judge (extraTags : List String) (rev : Bool) (names : List String) (before :
         match model with
         | .error e =>
           -- outside the hypotheses the outcome class is no part of obs_C06 (it depends on the order of removals)
-          if !hyp then ⟨.pass, "outcome-differs-outside-hyp" :: tags, ""⟩
+          if !big then ⟨.pass, "outcome-differs-degenerate" :: tags, ""⟩
           else ⟨.tie, tags, "model fails with " ++ errName e ++ ", implementation succeeds"⟩
         | .ok (mt, mix) =>
           let exact := mt.dump == after.dump
           let exactIO := (normIO mt).dump == (normIO after).dump
           let tags := tags ++ tagIf exact "exact" ++ tagIf (!exact) "inexact" ++
             tagIf (!exact && exactIO) "exact-up-to-io" ++ tagIf (!exact && !exactIO) "order-or-data-differs"
-          if !big && obs mt != obs after then ⟨.pass, "obs-differs-degenerate" :: tags, ""⟩
-          else if obs mt != obs after then ⟨.tie, tags, "model differs on: " ++ diffObs (obs mt) (obs after) ++ " model " ++ mt.dump⟩
+          if !big && obs before.rooted mt != obs before.rooted after then ⟨.pass, "obs-differs-degenerate" :: tags, ""⟩
+          else if obs before.rooted mt != obs before.rooted after then ⟨.tie, tags, "model differs on: " ++ diffObs (obs before.rooted mt) (obs before.rooted after) ++ " model " ++ mt.dump⟩
           else match ixo with
             | some (ex, _, _, _) =>
               if !after.tipNames.isEmpty && mix != ex then ⟨.tie, tags, "model index " ++ showStrList mix⟩ else ⟨.pass, tags, ""⟩
@@ -153,10 +168,15 @@ def judge (extraTags : List String) (rev : Bool) (names : List String) (before :
     else if !uniq then ⟨.pass, "skip-dupnames" :: tags, ""⟩
     else match model with
       | .error _ => ⟨.pass, tags, ""⟩
-      | .ok _ => ⟨.pass, "outcome-differs-outside-hyp" :: tags, ""⟩
+      | .ok _ =>
+        -- with ≥ 3 tips kept the outcome class is tied even outside the hypotheses (single-child inputs);
+        -- with fewer it depends on the order of removals and is no part of obs_C06
+        if big then ⟨.tie, tags, "model succeeds, implementation fails"⟩
+        else ⟨.pass, "outcome-differs-degenerate" :: tags, ""⟩
   | o =>
     let tags := (if o.startsWith "panic" then "impl-panic" else "impl-other-outcome") :: tags0
-    if hyp then ⟨.oracle, tags, "pruning ended with " ++ o⟩
+    -- a crash, a malformed heap or an unreadable output is never acceptable when ≥ 3 tips are kept
+    if uniq && big then ⟨.oracle, tags, "pruning ended with " ++ o⟩
     else ⟨.pass, "skip-degenerate" :: tags, o⟩
 
 def parseBool : String → Option Bool
